@@ -307,12 +307,14 @@ theorem exec_insertRowStep_ac (k : Nat) (env : Env) (b l : String) (trigs : List
     (d : DbR) (acc : DmlAcc) (s : St) (hs : TxState s) (hT : s.w.table? (acFull b) = some ((acT b trigs nr).withRows rows))
     (htyped : AcTyped rows)
     (hnb : trigs.filter (fun tr => tr.timing == .before && tr.event == .insert) = [])
-    (hna : trigs.filter (fun tr => tr.timing == .after && tr.event == .insert) = [])
+    (QI : AcR → List PendingTrig)
+    (hqaI : ∀ (nr' : Nat) (rows' : List Ver) (a : AcR) (s' : St), a.ledger = l →
+      (queueAfter (k + 9) ((acT b trigs nr').withRows rows') .insert [] (some a.vals) none).exec s' = (.ok (), s'.addQ (QI a)))
     (hno : ∀ q ∈ rows, q.visible (latestView s.w s.xid) = true → acKeyOf q.vals ≠ (l, d.address))
     (hcte : env.ctes.lookup "data_batch" = some (dbRel ds)) (hd : d ∈ ds) (hnd : (ds.map (·.address)).Nodup) :
     (insertRowStep (k + 10) env (acFull b) "accounts" "" insCols none (insReturning b) ((insSrcVals l d).map some) acc).exec s =
       (.ok { retCols := updRetCols, retRows := acc.retRows ++ [insRetRow l d], affected := acc.affected + 1 },
-       s.withTable ((acT b trigs (nr + 1)).withRows (newVer s.xid s.cid nr (insRow l d).vals :: rows))) := by
+       (s.withTable ((acT b trigs (nr + 1)).withRows (newVer s.xid s.cid nr (insRow l d).vals :: rows))).addQ (QI (insRow l d))) := by
   rw [insertRowStep]
   have hbuild := exec_buildRow_ac (k + 8) b l trigs nr rows d s
   have hfire := exec_fireBefore_none (k + 8) ((acT b trigs nr).withRows rows) .insert (by simp) [] (insRow l d).vals none s
@@ -324,9 +326,8 @@ theorem exec_insertRowStep_ac (k : Nat) (env : Env) (b l : String) (trigs : List
   have hT2 : (s.withTable ((acT b trigs (nr + 1)).withRows (newVer s.xid s.cid nr (insRow l d).vals :: rows))).w.table? (acFull b) =
       some ((acT b trigs (nr + 1)).withRows (newVer s.xid s.cid nr (insRow l d).vals :: rows)) :=
     withTable_table? _ ((acT b trigs nr).withRows rows) _ hT
-  have hqa := exec_queueAfter_none (k + 8) ((acT b trigs (nr + 1)).withRows (newVer s.xid s.cid nr (insRow l d).vals :: rows)) .insert []
-    (some (insRow l d).vals) none (s.withTable ((acT b trigs (nr + 1)).withRows (newVer s.xid s.cid nr (insRow l d).vals :: rows)))
-    (by simpa [acT, Table.withRows] using hna)
+  have hqa := hqaI (nr + 1) (newVer s.xid s.cid nr (insRow l d).vals :: rows) (insRow l d)
+    (s.withTable ((acT b trigs (nr + 1)).withRows (newVer s.xid s.cid nr (insRow l d).vals :: rows))) rfl
   simp only [exec_bind, exec_getTable hT, hbuild, hfire, exec_checkConstraints_ac, exec_pure, acT_uniques, hconf, exec_checkForeignKeys_ac,
     hins, exec_getTable hT2, hqa, exec_accReturning_acIns k env b l trigs (nr + 1) _ ds d acc _ hcte hd hnd]
 
@@ -342,32 +343,39 @@ def acInsAcc (l : String) : DmlAcc → List DbR → DmlAcc
   | acc, [] => acc
   | acc, d :: ds => acInsAcc l (DmlAcc.mk updRetCols (acc.retRows ++ [insRetRow l d]) (acc.affected + 1)) ds
 
+/-- the AFTER INSERT triggers queued by the loop -/
+def acInsQ (l : String) (QI : AcR → List PendingTrig) (D : List DbR) : List PendingTrig := D.flatMap (fun d => QI (insRow l d))
+
 theorem exec_insertLoop_ac (k : Nat) (env : Env) (b l : String) (trigs : List TriggerDef) (ds : List DbR)
-    (s0 : St) (hs0 : TxState s0) (T0 : Table) (hT0 : s0.w.table? (acFull b) = some T0)
     (hnb : trigs.filter (fun tr => tr.timing == .before && tr.event == .insert) = [])
-    (hna : trigs.filter (fun tr => tr.timing == .after && tr.event == .insert) = [])
+    (QI : AcR → List PendingTrig)
+    (hqaI : ∀ (nr' : Nat) (rows' : List Ver) (a : AcR) (s' : St), a.ledger = l →
+      (queueAfter (k + 9) ((acT b trigs nr').withRows rows') .insert [] (some a.vals) none).exec s' = (.ok (), s'.addQ (QI a)))
     (hcte : env.ctes.lookup "data_batch" = some (dbRel ds)) (hnd : (ds.map (·.address)).Nodup) :
-    ∀ (D : List DbR) (nr : Nat) (rows : List Ver) (acc : DmlAcc), (∀ d ∈ D, d ∈ ds) → (D.map (·.address)).Nodup → AcTyped rows →
+    ∀ (D : List DbR) (s0 : St) (T0 : Table) (nr : Nat) (rows : List Ver) (acc : DmlAcc), TxState s0 → s0.w.table? (acFull b) = some T0 →
+      (∀ d ∈ D, d ∈ ds) → (D.map (·.address)).Nodup → AcTyped rows →
       (∀ d ∈ D, ∀ q ∈ rows, q.visible (latestView s0.w s0.xid) = true → acKeyOf q.vals ≠ (l, d.address)) →
       ((D.map (fun d => (insSrcVals l d).map some)).foldlM (fun acc sr =>
           insertRowStep (k + 10) env (acFull b) "accounts" "" insCols none (insReturning b) sr acc) acc).exec
           (s0.withTable ((acT b trigs nr).withRows rows)) =
-        (.ok (acInsAcc l acc D), s0.withTable ((acT b trigs (nr + D.length)).withRows (acInsRows s0.xid s0.cid l nr rows D))) := by
+        (.ok (acInsAcc l acc D),
+         (s0.withTable ((acT b trigs (nr + D.length)).withRows (acInsRows s0.xid s0.cid l nr rows D))).addQ (acInsQ l QI D)) := by
   intro D
   induction D with
-  | nil => intro nr rows acc _ _ _ _; simp [acInsAcc, acInsRows]
+  | nil => intro s0 T0 nr rows acc _ _ _ _ _ _; simp [acInsAcc, acInsRows, acInsQ]
   | cons d D ih =>
-    intro nr rows acc hmem hndD htyped hno
+    intro s0 T0 nr rows acc hs0 hT0 hmem hndD htyped hno
     have hndD' : d.address ∉ D.map (·.address) ∧ (D.map (·.address)).Nodup := List.nodup_cons.mp hndD
     have hT : (s0.withTable ((acT b trigs nr).withRows rows)).w.table? (acFull b) = some ((acT b trigs nr).withRows rows) :=
       withTable_table? s0 T0 ((acT b trigs nr).withRows rows) hT0
     have hstep := exec_insertRowStep_ac k env b l trigs nr rows ds d acc (s0.withTable ((acT b trigs nr).withRows rows)) (hs0.withTable _) hT htyped
-      hnb hna (by simpa using hno d (by simp)) hcte (hmem d (by simp)) hnd
+      hnb QI hqaI (by simpa using hno d (by simp)) hcte (hmem d (by simp)) hnd
     simp only [withTable_xid, withTable_cid] at hstep
     simp only [List.map_cons, exec_foldlM_cons, hstep]
-    rw [withTable_withTable _ _ _ (by rfl)]
-    have hih := ih (nr + 1) (newVer s0.xid s0.cid nr (insRow l d).vals :: rows)
-      (DmlAcc.mk updRetCols (acc.retRows ++ [insRetRow l d]) (acc.affected + 1)) (fun x hx => hmem x (by simp [hx])) hndD'.2
+    rw [withTable_withTable _ _ _ (by rfl), ← addQ_withTable]
+    have hT0' : (s0.addQ (QI (insRow l d))).w.table? (acFull b) = some T0 := hT0
+    have hih := ih (s0.addQ (QI (insRow l d))) T0 (nr + 1) (newVer s0.xid s0.cid nr (insRow l d).vals :: rows)
+      (DmlAcc.mk updRetCols (acc.retRows ++ [insRetRow l d]) (acc.affected + 1)) (hs0.addQ _) hT0' (fun x hx => hmem x (by simp [hx])) hndD'.2
       (by
         intro q hq
         rcases List.mem_cons.mp hq with rfl | hq
@@ -384,7 +392,8 @@ theorem exec_insertLoop_ac (k : Nat) (env : Env) (b l : String) (trigs : List Tr
     have e : nr + 1 + D.length = nr + (D.length + 1) := by omega
     rw [e] at hih
     refine hih.trans ?_
-    simp [acInsAcc, acInsRows]
+    simp only [addQ_xid, addQ_cid, acInsAcc, acInsRows, List.length_cons, acInsQ, List.flatMap_cons]
+    rw [addQ_withTable, addQ_addQ]
 
 end Ledger.Sql
 
@@ -541,19 +550,22 @@ theorem exec_insertedRows (k : Nat) (env : Env) (b l : String) (trigs : List Tri
     (s : St) (hs : TxState s) (hb : b.isEmpty = false) (hT : s.w.table? (acFull b) = some ((acT b trigs nr).withRows rows))
     (htyped : AcTyped rows)
     (hnb : trigs.filter (fun tr => tr.timing == .before && tr.event == .insert) = [])
-    (hna : trigs.filter (fun tr => tr.timing == .after && tr.event == .insert) = [])
+    (QI : AcR → List PendingTrig)
+    (hqaI : ∀ (nr' : Nat) (rows' : List Ver) (a : AcR) (s' : St), a.ledger = l →
+      (queueAfter (k + 9) ((acT b trigs nr').withRows rows') .insert [] (some a.vals) none).exec s' = (.ok (), s'.addQ (QI a)))
     (hcteD : env.ctes.lookup "data_batch" = some (dbRel ds)) (hcteE : env.ctes.lookup "existing_accounts" = some (exRel E))
     (hnd : (ds.map (·.address)).Nodup)
     (hno : ∀ d ∈ ds, E.contains d.address = false → ∀ q ∈ rows, q.visible (latestView s.w s.xid) = true → acKeyOf q.vals ≠ (l, d.address)) :
     (execStmt (k + 12) env (Stmt.insert [] b "accounts" "" insCols (InsertSrc.query (insSelQ items wher)) none (insReturning b))).exec s =
       (.ok { rel := { cols := updRetCols, rows := (ds.filter (fun d => !E.contains d.address)).map (insRetRow l) },
              affected := (ds.filter (fun d => !E.contains d.address)).length },
-       s.withTable ((acT b trigs (nr + (ds.filter (fun d => !E.contains d.address)).length)).withRows
-         (acInsRows s.xid s.cid l nr rows (ds.filter (fun d => !E.contains d.address))))) := by
+       (s.withTable ((acT b trigs (nr + (ds.filter (fun d => !E.contains d.address)).length)).withRows
+         (acInsRows s.xid s.cid l nr rows (ds.filter (fun d => !E.contains d.address))))).addQ
+         (acInsQ l QI (ds.filter (fun d => !E.contains d.address)))) := by
   have hq : (qualify b "accounts").exec s = (.ok (acFull b), s) := by simp [qualify, hb, acFull]
   have hsrc := exec_insSelQ k env l ds E items wher hsem s hcteD hcteE
   have hself : s.withTable ((acT b trigs nr).withRows rows) = s := withTable_self s _ hT hs.names
-  have hloop := exec_insertLoop_ac k env b l trigs ds s hs _ hT hnb hna hcteD hnd (ds.filter (fun d => !E.contains d.address)) nr rows {}
+  have hloop := exec_insertLoop_ac k env b l trigs ds hnb QI hqaI hcteD hnd (ds.filter (fun d => !E.contains d.address)) s _ nr rows {} hs hT
     (fun d hd => (List.mem_filter.mp hd).1)
     ((List.filter_sublist.map _).nodup hnd) htyped
     (by
@@ -581,8 +593,9 @@ theorem exec_insertedRows (k : Nat) (env : Env) (b l : String) (trigs : List Tri
       rw [hD] at ha3
       simp only [if_true] at ha3
       have ha3' : (acInsAcc l {} (ds.filter (fun d => !E.contains d.address))).retCols = [] := ha3
-      have hT' : (s.withTable ((acT b trigs (nr + (ds.filter (fun d => !E.contains d.address)).length)).withRows
-          (acInsRows s.xid s.cid l nr rows (ds.filter (fun d => !E.contains d.address))))).w.table? (acFull b) =
+      have hT' : ((s.withTable ((acT b trigs (nr + (ds.filter (fun d => !E.contains d.address)).length)).withRows
+          (acInsRows s.xid s.cid l nr rows (ds.filter (fun d => !E.contains d.address))))).addQ
+            (acInsQ l QI (ds.filter (fun d => !E.contains d.address)))).w.table? (acFull b) =
           some ((acT b trigs (nr + (ds.filter (fun d => !E.contains d.address)).length)).withRows
             (acInsRows s.xid s.cid l nr rows (ds.filter (fun d => !E.contains d.address)))) :=
         withTable_table? s ((acT b trigs nr).withRows rows) _ hT
@@ -590,8 +603,9 @@ theorem exec_insertedRows (k : Nat) (env : Env) (b l : String) (trigs : List Tri
         exec_getTable hT']
       have hp := exec_protoRet_ins (k + 2) env b trigs (nr + (ds.filter (fun d => !E.contains d.address)).length)
         (acInsRows s.xid s.cid l nr rows (ds.filter (fun d => !E.contains d.address))) ds
-        (s.withTable ((acT b trigs (nr + (ds.filter (fun d => !E.contains d.address)).length)).withRows
-          (acInsRows s.xid s.cid l nr rows (ds.filter (fun d => !E.contains d.address))))) hcteD
+        ((s.withTable ((acT b trigs (nr + (ds.filter (fun d => !E.contains d.address)).length)).withRows
+          (acInsRows s.xid s.cid l nr rows (ds.filter (fun d => !E.contains d.address))))).addQ
+            (acInsQ l QI (ds.filter (fun d => !E.contains d.address)))) hcteD
       unfold protoReturning at hp
       simp only [withRows_cols] at hp ⊢
       erw [hp]
